@@ -14,7 +14,7 @@ META = {
              'is a boundary value of its domain or belongs to a rejection class'),
     'required_obs': {'quick': ['code-' + c for c in CODES] + ['uvari-width-1', 'uvari-width-2', 'uvari-width-4',
                                'rejected-out-of-range', 'rejected-non-ascii', 'rejected-too-long', 'cache-collision-pair',
-                               'e2e-contract-evals', 'obname-copy>0', 'obname-origin-2byte', 'obname-after-identity-change', 'dtime-utc-year-differs']},
+                               'e2e-contract-evals', 'obname-copy>0', 'obname-origin-2byte', 'obname-after-identity-change', 'dtime-utc-year-differs', 'numpy-scalar-zero-pair']},
     'exhaustive_windows': {'quick': ['UVARI: every value 0..20000 and 2^30-3..2^30+3', 'USHORT/SSHORT: whole domain +-2',
                                      'IDENT lengths 0..260', 'STATUS -2..3'],
                            'thorough': ['UVARI: every value 0..70000', 'UNORM/SNORM whole domain +-2', 'IDENT/ASCII lengths 0..300']},
@@ -152,6 +152,11 @@ def run_case(case):
         # history: every value twice, interleaved with colliding keys 0.0/-0.0, 1/1.0/True
         seq = [(c, v) for v in vals for c in ('FDOUBL', 'FSINGL')]
         seq = seq + [('FDOUBL', -0.0), ('FDOUBL', 0.0), ('FSINGL', 0.0), ('FSINGL', -0.0), ('FDOUBL', 1), ('FDOUBL', 1.0), ('FDOUBL', True)] + seq[::-1]
+        # numpy scalars (what index minima / maxima and array elements are before conversion), again with colliding keys
+        import numpy as np
+        nps = [(c, t(v)) for t in (np.float32, np.float64) for v in (-0.0, 0.0, 1.0, 0.5, -0.0) for c in ('FSINGL', 'FDOUBL')]
+        seq = seq + nps + nps[::-1]
+        bump('numpy-scalar-zero-pair', 2)
         bump('cache-collision-pair', 2)
         for c, v in seq:
             pack = '>d' if c == 'FDOUBL' else '>f'
